@@ -252,7 +252,27 @@ def strip_comments(text):
 
 
 def rewrite_asserts(text):
-    """R3: assert!(c[, msg..]) -> vf_runtime_assert(c)"""
+    """R3: assert!(c[, msg..]) -> vf_runtime_assert(c); assert_eq!(a, b[, msg..]) -> vf_runtime_assert((a) == (b)); likewise _ne"""
+    while True:
+        b, _ = rs.blank(text)
+        m = re.search(r'\bassert_(eq|ne)!\s*\(', b)
+        if not m:
+            break
+        o = m.end() - 1
+        c = rs.match_bracket(b, o)
+        inner_b = b[o + 1:c]
+        parts, depth, last = [], 0, 0
+        for k, ch in enumerate(inner_b):
+            if ch in '([{':
+                depth += 1
+            elif ch in ')]}':
+                depth -= 1
+            elif ch == ',' and depth == 0:
+                parts.append(text[o + 1 + last:o + 1 + k])
+                last = k + 1
+        parts.append(text[o + 1 + last:c])
+        op = '==' if m.group(1) == 'eq' else '!='
+        text = text[:m.start()] + 'vf_runtime_assert((%s) %s (%s))' % (parts[0].strip(), op, parts[1].strip()) + text[c + 1:]
     while True:
         b, _ = rs.blank(text)
         m = re.search(r'\bassert!\s*\(', b)
@@ -674,6 +694,12 @@ class Gen:
         if c.external_body:
             # D8: body is outside the image; dropped, recorded
             self.ext_bodies.append(f.key)
+            if re.search(r'vf_debug_assert\(|vf_cfg_debug_assertions\(', text[lo:hi]):
+                # the Kani harness that discharges this contract runs with debug assertions ON: a guard that exists
+                # only in debug builds would be taken for a real one.  The contract counts as unverified.
+                self.lose(f, 'body outside the image contains code that depends on debug_assertions')
+                if f.key not in self.forced:
+                    self.forced.append(f.key)
             edits.append((lo, hi, ' unimplemented!() '))
             count('D8')
             return edits
